@@ -79,6 +79,12 @@ Definition pad32 (l : list N) : list N := firstn 32 (l ++ repeat 0 32).
 (* "{{CLIENT}}" *)
 Definition tmpl_client : list N := [123; 123; 67; 76; 73; 69; 78; 84; 125; 125].
 
+(* what a beacon node says when asked for its client name *)
+Inductive node_client :=
+| NCNot                         (* the provider is not a NodeClientProvider *)
+| NCErr                         (* NodeClient failed: "not updating graffiti" *)
+| NCName (name : list N).
+
 (* ------------------------------------------------------------------------------------------- *)
 (* Path 1 — services/beaconblockproposer/standard/propose.go: Propose -> obtainGraffiti ->
    proposeBlock, from the proposal response to the selection of the unblinding providers (and the
@@ -107,6 +113,7 @@ Record proposal := {
 
 Record p1_in := {
   p1_graffiti : graffiti_in;
+  p1_node_client : node_client;  (* the proposal provider itself as a NodeClientProvider (single-node set-ups) *)
   p1_auction : auction_in;
   p1_proposal : option proposal; (* None: the proposal provider returned an error *)
   p1_sign_ok : bool;
@@ -130,11 +137,17 @@ Definition p1_out := (p1_trace * outcome unit p1_err)%type.
 Definition version_handled (v : N) : bool := (1 <=? v) && (v <=? 5).
 Definition version_unblindable (v : N) : bool := (3 <=? v) && (v <=? 5).
 
-Definition graffiti_of (g : graffiti_in) : list N :=
+(* obtainGraffiti: the {{CLIENT}} replacement when the proposal provider can name its client *)
+Definition client_replaced (l : list N) (nc : node_client) : list N :=
+  if contains tmpl_client l then
+    match nc with NCName n => replace_all tmpl_client n l | _ => l end
+  else l.
+
+Definition graffiti_of (g : graffiti_in) (nc : node_client) : list N :=
   match g with
   | GNoProvider => repeat 0 32
   | GErr => repeat 0 32                         (* Propose: graffiti = [32]byte{} *)
-  | GBytes l => pad32 l                         (* copy(res[:], graffiti) *)
+  | GBytes l => pad32 (client_replaced l nc)    (* copy(res[:], graffiti) *)
   end.
 
 Definition unblind_candidates (all_flag : bool) (a : auction) : list prov :=
@@ -150,7 +163,7 @@ Definition delivered (i : p1_in) : Prop :=
   forall p, p1_proposal i = Some p -> lib_nil_deneb p = false.
 
 Definition propose (nil_guard : bool) (i : p1_in) : p1_out :=
-  let g := graffiti_of (p1_graffiti i) in
+  let g := graffiti_of (p1_graffiti i) (p1_node_client i) in
   let tr signed unb sub := {| t_graffiti := g; t_signed := signed; t_unblind := unb; t_submitted := sub |} in
   (* auctionResults *)
   let aur := match p1_auction i with ARes a => Some a | _ => None end in
@@ -217,11 +230,6 @@ Definition issue_requests (relays : list fetch_res) : N := lenN relays.
 (* ------------------------------------------------------------------------------------------- *)
 (* Path 3 — strategies/beaconblockproposal/best: the {{CLIENT}} substitution, per provider in
    map-iteration order; [opts] is reassigned, so a rewritten graffiti is what later providers see. *)
-
-Inductive node_client :=
-| NCNot                         (* the provider is not a NodeClientProvider *)
-| NCErr                         (* NodeClient failed: "not updating graffiti" *)
-| NCName (name : list N).
 
 Inductive conv := ConvSlice     (* [32]byte(providerGraffiti) after truncation to 32 *)
                 | ConvCopy.     (* copy into a zeroed [32]byte *)
